@@ -557,6 +557,25 @@ func c17Run(run *ev.Run) {
 			}
 		}
 	}
+	// every list of up to four filters over {mock allow, mock deny, oidc, oidc_override} as the filters of chain 0, in the
+	// plain and in the default+override document: order and distance between the OIDC filters must not matter
+	kinds := []any{map[string]any{"mock": map[string]any{"allow": true}}, map[string]any{"mock": map[string]any{}},
+		map[string]any{"oidc": c17HonestOIDC()}, map[string]any{"oidc_override": map[string]any{"client_id": "ov"}}}
+	for _, shape := range []string{"plain", "override"} {
+		var gen func(prefix []any)
+		gen = func(prefix []any) {
+			if len(prefix) > 0 {
+				cases = append(cases, c17Case{Shape: shape, Devs: []c17Dev{{Path: "chains.0.filters", Value: append([]any{}, prefix...), Name: fmt.Sprintf("filters=%d", len(prefix))}}})
+			}
+			if len(prefix) == 4 {
+				return
+			}
+			for _, k := range kinds {
+				gen(append(append([]any{}, prefix...), k))
+			}
+		}
+		gen(nil)
+	}
 	// shipped fixtures with single-member deletions
 	repo := os.Getenv("VERIF_REPO")
 	if repo == "" {
